@@ -10,7 +10,7 @@ def _strip_hash(T):
 
 
 # --------------------------------------------------------------------------------------------- C05
-def c05_cross_engine(tier, seed, profiles=("core", "actions", "history", "done", "select"), n=80):
+def c05_cross_engine(tier, seed, profiles=("core", "actions", "history", "done", "select", "parallways"), n=80):
     scale = 6 if tier == "thorough" else 1
     fails, samples = [], []
     evals = nontrivial = 0
@@ -21,9 +21,14 @@ def c05_cross_engine(tier, seed, profiles=("core", "actions", "history", "done",
         for c, (s1, o1), (s2, o2) in zip(cs, rs, ra):
             evals += 1
             if s1 != "ok" or s2 != "ok":
-                if s1 != s2:
-                    fails.append({"kind": "engines-disagree", "case": c, "detail": f"sync run: {s1}, async run: {s2}"})
-                continue
+                # a watchdog cut on a loaded machine is not a verdict: run both once more, alone, with a generous watchdog
+                if "hang" in (s1, s2):
+                    s1, o1 = core._impl_worker(("sync", c, 40))
+                    s2, o2 = core._impl_worker(("async", c, 40))
+                if s1 != "ok" or s2 != "ok":
+                    if s1 != s2:
+                        fails.append({"kind": "engines-disagree", "case": c, "detail": f"sync run: {s1}, async run: {s2}"})
+                    continue
             pr = oracles.c05_engines_agree(c, {"sync": o1, "async": o2})
             if any(len(_strip_hash(o["T"])) for o in o1[1:]):
                 nontrivial += 1
@@ -412,11 +417,11 @@ def _pure_run(case):
     return out, fp0 != _machine_fingerprint(machine)
 
 
-def _pure_worker(case):
+def _pure_worker(case, watchdog=8):
     import signal
     from . import impl
     old = signal.signal(signal.SIGALRM, impl._alarm)
-    signal.setitimer(signal.ITIMER_REAL, 8, 0.2)
+    signal.setitimer(signal.ITIMER_REAL, watchdog, 0.2)
     try:
         return ("ok", _pure_run(case))
     except impl.Hang:
@@ -485,6 +490,8 @@ def c05_pure(tier, seed, n=120):
         evals += 1
         if s1 != "ok":
             continue
+        if s2 == "hang":
+            s2, pr = _pure_worker(c, 40)         # once more, alone, generous watchdog (a loaded machine)
         if s2 != "ok":
             fails.append({"kind": "pure-api-crash", "case": c, "detail": f"pure API: {s2} {pr}"})
             continue
@@ -498,3 +505,70 @@ def c05_pure(tier, seed, n=120):
                 samples.append({"case": c})
     return {"evaluations": evals, "nontrivial": nontrivial, "ties": [], "fails": fails, "samples": samples, "exhaustive": False,
             "what": "initial_transition/transition chained over the event list vs SyncInterpreter: configuration, status, context, reported vs executed actions per step; no user code runs; definition and input snapshot unchanged"}
+
+
+# ---------------------------------------------------------------------------------------------- C13: delayed self-sends
+def _delay_some_raises(machine, rng, p=0.35):
+    """give a share of the `raise` actions a long delay (they then sit in a timer and are never part of the chain the
+    machine is running now); returns how many were delayed"""
+    n = [0]
+
+    def one(a):
+        if isinstance(a, dict) and str(a.get("type", "")).endswith("raise") and isinstance(a.get("params"), dict) \
+                and "delay" not in a["params"] and rng.random() < p:
+            n[0] += 1
+            q = copy.deepcopy(a)
+            q["params"]["delay"] = rng.choice([60000, 120000, 3600000])
+            if rng.random() < 0.4:
+                q["params"]["id"] = f"d{n[0]}"
+            return q
+        return a
+
+    def fn(items):          # _map_actions hands over whole action lists
+        return [one(a) for a in items]
+    return _map_actions(machine, fn), n[0]
+
+
+def c13_delayed_self_sends(tier, seed, n=160):
+    """C13 on machines whose `raise` actions are partly DELAYED (monitor on the real code, both engines; the engine
+    model has no timers, so there is no tie here): a delayed self-send only sits in a timer - it must not count towards
+    the chain breaker, must not keep the chain 'open', and the bound must still cut only chains longer than
+    maxIterations.  Virtual time never advances between the events of a case, so a delayed event is never delivered;
+    the monitors are `c13_short_chain_not_cut` and the legality monitor, and every run is under the watchdog (a hang
+    is a violation)."""
+    scale = 6 if tier == "thorough" else 1
+    fails, samples = [], []
+    evals = nontrivial = 0
+    for flavor in ("async", "sync"):
+        cases = []
+        for i in range(n * scale):
+            c = gen.gen_case(seed, "loopfaults" if i % 2 else "loops", 41000 + i)
+            rng = random.Random((seed << 12) ^ i)
+            m, k = _delay_some_raises(c["machine"], rng)
+            if not k:
+                continue
+            c = dict(c, machine=m, id=c["id"] + "-delayed")
+            # many short external bursts: every event of the list twice over
+            c["events"] = (c["events"] * 3)[:24]
+            cases.append(c)
+        rs = core.run_impl_many(flavor, cases)
+        for c, (st, obs) in zip(cases, rs):
+            evals += 1
+            if st == "hang":
+                st2, obs2 = core._impl_worker((flavor, c, 40))
+                if st2 == "hang":
+                    fails.append({"kind": "hang", "flavor": flavor, "case": c, "detail": "the engine did not come back (watchdog)"})
+                    continue
+                st, obs = st2, obs2
+            if st != "ok":
+                continue            # a raw exception escaping the API is C18's / C07's business
+            probs = oracles.c13_short_chain_not_cut(c, obs, flavor) + oracles.c01_legal(c, obs, flavor)
+            if probs:
+                fails.append(dict(probs[0], flavor=flavor, case=c))
+            elif any(o.get("self_sends") for o in obs):
+                nontrivial += 1
+                if len(samples) < 2 and len(json.dumps(c)) < 2000:
+                    samples.append({"case": c, "flavor": flavor})
+    return {"evaluations": evals, "nontrivial": nontrivial, "ties": [], "fails": fails, "samples": samples, "exhaustive": False,
+            "what": "machines with delayed `raise` actions (long delays, some with ids), 24 events each, both engines: the chain breaker fires "
+                    "only in steps with more than maxIterations self-sends, configurations stay legal, nothing hangs"}
